@@ -240,6 +240,57 @@ theorem enhScore_nonneg (he : ExpLaw e) (c : SLink F) (now : Nat) (quality u : B
   exact mul_nonneg (mul_nonneg (mul_nonneg (mul_nonneg h1 h2) h3) h4) h5
 
 
+omit [Field F] [LinearOrder F] [IsStrictOrderedRing F] [FloorRing F] in
+theorem score_le_window (c : SLink F) (hc : c.connected = true) (hw : 0 ≤ c.window) : score c ≤ c.window := by
+  unfold score
+  rw [hc]
+  simp only [Bool.not_true, Bool.false_eq_true, if_false]
+  exact Int.ediv_le_self _ hw
+
+theorem phaseWeight_le_one (p : Phase) : @phaseWeight F 𝕊 p ≤ 1 := by
+  rw [phaseWeight_val]; cases p <;> norm_num
+
+theorem gateFactor_le_one (u : Bool) (c : SLink F) : gateFactor (F := F) u c ≤ 1 := by
+  unfold gateFactor; split <;> norm_num
+
+theorem qualFactor_le (he : ExpLaw e) (c : SLink F) (now : Nat) (quality : Bool)
+    (hq : c.qualMult ≤ 11 / 10 * (103 / 100)) :
+    qualFactor e ninf c now quality ≤ 11 / 10 * (103 / 100) := by
+  unfold qualFactor
+  split
+  · split
+    · exact (qualityMult_range e ninf he c now).2
+    · exact hq
+  · norm_num
+
+/-- Boundedness of the score ("finite" in exact arithmetic). -/
+theorem enhScore_le (he : ExpLaw e) (c : SLink F) (now : Nat) (quality u : Bool)
+    (hc : c.connected = true) (hw : 0 ≤ c.window) (hq0 : 0 < c.qualMult)
+    (hq : c.qualMult ≤ 11 / 10 * (103 / 100)) :
+    (@enhScore F 𝕊 c now quality u).2 ≤ (c.window : F) * (11 / 10 * (103 / 100)) := by
+  rw [enhScore_formula]
+  have h1 : (0 : F) ≤ ((score c : Int) : F) := by exact_mod_cast score_nonneg c hc hw
+  have h1' : ((score c : Int) : F) ≤ (c.window : F) := by exact_mod_cast score_le_window c hc hw
+  have h2 := phaseWeight_nonneg e ninf c.phase
+  have h2' := phaseWeight_le_one e ninf c.phase
+  have h3 := le_of_lt (qualFactor_pos e ninf he c now quality hq0)
+  have h3' := qualFactor_le e ninf he c now quality hq
+  have h4 : (0 : F) ≤ @softCapMult F 𝕊 c := le_trans (by norm_num) (softCap_range e ninf c).1
+  have h4' := (softCap_range e ninf c).2
+  have h5 := le_of_lt (gateFactor_pos (F := F) u c)
+  have h5' := gateFactor_le_one (F := F) u c
+  have hw' : (0 : F) ≤ (c.window : F) := by exact_mod_cast hw
+  have a1 : ((score c : Int) : F) * @phaseWeight F 𝕊 c.phase ≤ (c.window : F) * 1 :=
+    mul_le_mul h1' h2' h2 hw'
+  have a2 : ((score c : Int) : F) * @phaseWeight F 𝕊 c.phase * qualFactor e ninf c now quality ≤
+      (c.window : F) * 1 * (11 / 10 * (103 / 100)) :=
+    mul_le_mul a1 h3' h3 (by linarith)
+  have a3 : ((score c : Int) : F) * @phaseWeight F 𝕊 c.phase * qualFactor e ninf c now quality *
+      @softCapMult F 𝕊 c ≤ (c.window : F) * 1 * (11 / 10 * (103 / 100)) * 1 :=
+    mul_le_mul a2 h4' h4 (by positivity)
+  have a4 := mul_le_mul a3 h5' h5 (by positivity)
+  linarith
+
 /-! ## The decision -/
 
 theorem lit_neg_one : @Scalar.lit F 𝕊 (-1.0) (-1) 1 = (-1 : F) := by norm_num [Scalar.lit]
